@@ -24,9 +24,9 @@ Definition since_run (h : list op) : list op :=
 (* an error, a failure or an unexpected success *)
 Definition problem (o : op) : option (nat * tid) :=
   match o with
-  | Outcome KError t | Block KError t => Some (0, t)
-  | Outcome KFailure t | Block KFailure t => Some (1, t)
-  | Outcome KUxsuccess t | Block KUxsuccess t => Some (2, t)
+  | Outcome KError _ t | Block KError _ t => Some (0, t)
+  | Outcome KFailure _ t | Block KFailure _ t => Some (1, t)
+  | Outcome KUxsuccess _ t | Block KUxsuccess _ t => Some (2, t)
   | _ => None
   end.
 Definition is_problem (o : op) : bool := match problem o with Some _ => true | None => false end.
@@ -39,20 +39,28 @@ Record leaf_info := {
   li_ff : bool;           (* failfast given to its constructor *)
   li_text : bool;         (* a TextTestResult *)
   li_e2s : bool;          (* an ExtendedToStreamDecorator *)
+  li_foreign : bool;      (* an ExtendedToOriginalDecorator over a foreign result: not one of testtools' own results,
+                             and its startTestRun does not clear shouldStop *)
   li_tfr : bool           (* below a ThreadsafeForwardingResult: receives whole tests at their outcome *)
 }.
 Definition li_down (j : nat) (i : leaf_info) : leaf_info :=
-  {| li_path := j :: li_path i; li_ff := li_ff i; li_text := li_text i; li_e2s := li_e2s i; li_tfr := li_tfr i |}.
+  {| li_path := j :: li_path i; li_ff := li_ff i; li_text := li_text i; li_e2s := li_e2s i;
+     li_foreign := li_foreign i; li_tfr := li_tfr i |}.
 Definition li_under_tfr (i : leaf_info) : leaf_info :=
-  {| li_path := li_path i; li_ff := li_ff i; li_text := li_text i; li_e2s := li_e2s i; li_tfr := true |}.
+  {| li_path := li_path i; li_ff := li_ff i; li_text := li_text i; li_e2s := li_e2s i;
+     li_foreign := li_foreign i; li_tfr := true |}.
 
 Fixpoint number_from {A B} (f : nat -> A -> list B) (j : nat) (l : list A) : list B :=
   match l with [] => [] | x :: r => f j x ++ number_from f (S j) r end.
 
 Fixpoint leaf_infos (a : adapter) : list leaf_info :=
   match a with
-  | ATR ff txt => [{| li_path := []; li_ff := ff; li_text := txt; li_e2s := false; li_tfr := false |}]
-  | AE2S => [{| li_path := []; li_ff := false; li_text := false; li_e2s := true; li_tfr := false |}]
+  | ATR ff txt => [{| li_path := []; li_ff := ff; li_text := txt; li_e2s := false; li_foreign := false;
+                      li_tfr := false |}]
+  | AE2S => [{| li_path := []; li_ff := false; li_text := false; li_e2s := true; li_foreign := false;
+                li_tfr := false |}]
+  | AFor _ => [{| li_path := []; li_ff := false; li_text := false; li_e2s := false; li_foreign := true;
+                  li_tfr := false |}]
   | AMulti l => (fix go (j : nat) (l : list adapter) : list leaf_info :=
                    match l with [] => [] | x :: r => map (li_down j) (leaf_infos x) ++ go (S j) r end) 0 l
   | ATFR x => map (fun i => li_down 0 (li_under_tfr i)) (leaf_infos x)
@@ -77,15 +85,20 @@ Definition intended_ff (i : input) (li : leaf_info) : bool :=
 (* ---------- the clauses, for the history so far [h] ---------- *)
 Definition want_ok (h : list op) : bool := negb (existsb is_problem (since_run h)).
 
+(* the calls that count for shouldStop of a result: testtools' own results clear shouldStop at startTestRun;
+   a foreign result (unittest.TestResult and its look-alikes) never clears it *)
+Definition scope (resets : bool) (h : list op) : list op := if resets then since_run h else h.
+
 Definition want_leaf_stop (i : input) (h : list op) (li : leaf_info) : bool :=
-  existsb (stop_reaches (li_path li)) (since_run h)
-  || (intended_ff i li && existsb is_problem (since_run h)).
+  let s := scope (negb (li_foreign li)) h in
+  existsb (stop_reaches (li_path li)) s
+  || (intended_ff i li && existsb is_problem s).
 
 Definition counts_as_test (tfr : bool) (o : op) : bool :=
   match o with
-  | Block _ _ => true
+  | Block _ _ _ => true
   | StartTest _ => negb tfr
-  | Outcome _ _ => tfr
+  | Outcome _ _ _ => tfr
   | _ => false
   end.
 
@@ -121,11 +134,13 @@ Definition prefixes (h : list op) : list (list op) := map (fun k => firstn k h) 
 Definition lbool_eqb : list bool -> list bool -> bool := list_eqb Bool.eqb.
 
 Definition has_e2s (i : input) : bool := existsb li_e2s (leaf_infos (stack i)).
+Definition has_foreign (i : input) : bool := existsb li_foreign (leaf_infos (stack i)).
 
 (* verdict: on testtools' own results (not ExtendedToStreamDecorator, whose wasSuccessful ignores unexpected
-   successes - the statement does not list it) *)
+   successes - the statement does not list it; not stacks that end in a foreign result, whose wasSuccessful is
+   the foreign object's business) *)
 Definition verdict_okb (i : input) (o : obs) : bool :=
-  has_e2s i || lbool_eqb (o_ok o) (map want_ok (prefixes (hist i))).
+  has_e2s i || has_foreign i || lbool_eqb (o_ok o) (map want_ok (prefixes (hist i))).
 
 (* failfast / stop: every underlying result, after every call *)
 Definition stop_okb (i : input) (o : obs) : bool :=
@@ -150,7 +165,7 @@ Definition Summary_ok (tfr : bool) (h : list op) (s : summary) : Prop :=
   /\ (forall x, count sec_eqb x (s_sections s) = count sec_eqb x (problems (since_run h))).
 
 Definition Spec (i : input) (o : obs) : Prop :=
-  (has_e2s i = false ->
+  (has_e2s i = false -> has_foreign i = false ->
      Forall2 (fun h ok => ok = want_ok h) (prefixes (hist i)) (o_ok o))
   /\ Forall2 (fun h stops => Forall2 (fun li s => s = want_leaf_stop i h li) (leaf_infos (stack i)) stops)
              (prefixes (hist i)) (o_leaf_stop o)
@@ -163,7 +178,7 @@ Definition Spec (i : input) (o : obs) : Prop :=
 (* MultiTestResult() without members cannot be constructed (IndexError) *)
 Fixpoint wf_stack (a : adapter) : bool :=
   match a with
-  | ATR _ _ | AE2S => true
+  | ATR _ _ | AE2S | AFor _ => true
   | AMulti l => match l with [] => false | _ => forallb wf_stack l end
   | ATFR x | AE2O x | ADeco _ x => wf_stack x
   end.
@@ -177,6 +192,7 @@ Fixpoint will_stop (cov : bool) (n : node) : list bool :=
   match n with
   | NTR r => [cov || tr_ff r]
   | NE2S e => [cov || e_ff e]
+  | NFor f => [cov || fo_ff f]
   | NMulti l => flat_map (fun ec => will_stop (cov || e2o_get ec) (snd ec)) l
   | NTFR _ e x | NE2O e x => will_stop (cov || e2o_get (e, x)) x
   | NDeco _ x => will_stop cov x
@@ -191,7 +207,7 @@ Definition finding_F18 (i : input) : bool :=
 (* ... which happens only in the two situations the finding names (Proof.C04.finding_F18_confined): *)
 Fixpoint has_wrapper (a : adapter) : bool :=    (* a ThreadsafeForwardingResult / TestResultDecorator / Tagger *)
   match a with
-  | ATR _ _ | AE2S => false
+  | ATR _ _ | AE2S | AFor _ => false
   | AMulti l => existsb has_wrapper l
   | ATFR _ | ADeco _ _ => true
   | AE2O x => has_wrapper x
@@ -199,13 +215,13 @@ Fixpoint has_wrapper (a : adapter) : bool :=    (* a ThreadsafeForwardingResult 
 Fixpoint ff_ctor_anywhere (a : adapter) : bool :=
   match a with
   | ATR ff _ => ff
-  | AE2S => false
+  | AE2S | AFor _ => false
   | AMulti l => existsb ff_ctor_anywhere l
   | ATFR x | AE2O x | ADeco _ x => ff_ctor_anywhere x
   end.
 Fixpoint ff_ctor_in_multi (a : adapter) : bool :=   (* a failfast=True result somewhere inside a MultiTestResult *)
   match a with
-  | ATR _ _ | AE2S => false
+  | ATR _ _ | AE2S | AFor _ => false
   | AMulti l => existsb ff_ctor_anywhere l
   | ATFR x | AE2O x | ADeco _ x => ff_ctor_in_multi x
   end.
